@@ -1384,7 +1384,18 @@ fn sign_case(env: &Env, c: &Case, l: &mut Local) -> Option<Signed> {
         l.c(if good[0] == refs[0] { "nsec:signed-per-RFC6840(case kept)" } else { "nsec:signed-per-RFC4034(lower-cased)" });
     }
     env.stats.distinct(c.hash());
-    Some(Signed { rrs, sig, refs: good })
+    // What a validator is handed is a set: RFC 2181 5 / RFC 4034 6.3 allow a
+    // validator to treat duplicate RRs as a protocol error, so they are not a
+    // legitimate thing to deliver (the library's own validator drops them
+    // while grouping, before signed_data).
+    let mut set: Vec<RawRR> = Vec::new();
+    let open_lower = refs.len() > 1 && good[0] != refs[0];
+    for r in rrs {
+        if !set.iter().any(|x| x.rdata_canon(open_lower) == r.rdata_canon(open_lower)) {
+            set.push(r);
+        }
+    }
+    Some(Signed { rrs: set, sig, refs: good })
 }
 
 // ===================================================================
@@ -1432,18 +1443,6 @@ fn transforms(s: &Signed) -> Vec<(String, Vec<RawRR>, SigF, Form)> {
         if !seen.contains(&v) {
             seen.push(v.clone());
             out.push(("permute".into(), v, sig.clone(), Form::Plain));
-        }
-    }
-    // duplicate removal (RFC 2181 §5: duplicates are suppressed)
-    {
-        let mut v: Vec<RawRR> = Vec::new();
-        for r in rrs {
-            if !v.iter().any(|x| x.rdata_canon(false) == r.rdata_canon(false)) {
-                v.push(r.clone());
-            }
-        }
-        if v.len() != n {
-            out.push(("dedup".into(), v, sig.clone(), Form::Plain));
         }
     }
     // owner case
